@@ -10,7 +10,7 @@ from .. import dedupelab as D
 ID = "C20"
 LEVEL = "exploration"
 RULE = ("two (quick) / three (thorough) groups of 3 identical files; every subset of the droppable members locked by a "
-        "foreign process holding fcntl write locks or read (shared) locks x op {remove, link, link --soft, dedupe, "
+        "foreign process holding fcntl write locks or read (shared) locks on the whole file, or exclusive locks on a byte range (first byte, last byte, at the end of the data, far beyond it) x op {remove, link, link --soft, dedupe, "
         "move, move to a directory on another mount point known to fclones (loop-mounted ext4 image)} x {default, --no-lock}; and a group in which the locked file has three hard-linked names among the droppable members (report made with and without -H, lock taken through each name). and the same run by an unprivileged user (setpriv, uid 65534) with the locked members read-only (0444) or writable for that user. Oracle (a lock is on the file: every name of a locked inode counts as locked): locked members keep inode, bytes and path and are named in a warning; "
         "every other droppable member is processed; with --no-lock every droppable member is processed. "
         "Non-trivial = at least one member locked; distinct by (subset, lock type, op, flag).")
@@ -23,7 +23,17 @@ mode = sys.argv[1]
 fds = []
 for p in sys.argv[2:]:
     fd = os.open(os.fsencode(p), os.O_RDWR)
-    fcntl.lockf(fd, fcntl.LOCK_EX if mode == "write" else fcntl.LOCK_SH)
+    size = os.fstat(fd).st_size
+    if mode in ("write", "read"):
+        fcntl.lockf(fd, fcntl.LOCK_EX if mode == "write" else fcntl.LOCK_SH)
+    elif mode == "range_first_byte":
+        fcntl.lockf(fd, fcntl.LOCK_EX, 1, 0, os.SEEK_SET)
+    elif mode == "range_last_byte":
+        fcntl.lockf(fd, fcntl.LOCK_EX, 1, max(size - 1, 0), os.SEEK_SET)
+    elif mode == "range_at_eof":
+        fcntl.lockf(fd, fcntl.LOCK_EX, 10, size, os.SEEK_SET)           # [size, size+10): beyond the data
+    elif mode == "range_far_beyond_eof":
+        fcntl.lockf(fd, fcntl.LOCK_EX, 512, 0x40000000, os.SEEK_SET)    # where SQLite keeps its lock bytes
     fds.append(fd)
 sys.stdout.write("ready\n"); sys.stdout.flush()
 sys.stdin.read()
@@ -62,6 +72,12 @@ def cases(tier, seed):
                     for nolock in (False, True):
                         out.append({"ngroups": ng, "locked": list(sub), "mode": mode, "op": op, "no_lock": nolock,
                                     "droppable": droppable})
+    # byte-range locks (a database locking single bytes, possibly beyond the end of the data)
+    for mode in ("range_first_byte", "range_last_byte", "range_at_eof", "range_far_beyond_eof"):
+        for sub in (["r/b/g0_1"], ["r/b/g0_1", "r/c/g1_2"]):
+            for op in ("remove", "link", "softlink", "move"):
+                out.append({"ngroups": 2, "locked": sub, "mode": mode, "op": op, "no_lock": False,
+                            "droppable": ["r/b/g0_1", "r/b/g1_1", "r/c/g0_2", "r/c/g1_2"]})
     # a locked file that has several names among the droppable members (hard links; report with and without -H)
     for mode in ("write", "read"):
         for sub in ([], ["r/b/h1"], ["r/b/h2"], ["r/c/h3"], ["r/c/k2"], ["r/b/h1", "r/c/k2"]):
